@@ -17,14 +17,15 @@ Out    == IOEnv.GEN_OUT
 Lab == <<"a", "b", "c", "d", "e">>
 
 StateRec(n) == [o : {P1, P2, PR}, r : 0..3, k : 1..3, t : [1..3 -> 1..n], w : [1..3 -> 1..3]]
-OptRec(n)   == [win : BOOLEAN, lose : BOOLEAN, xf : 0..n, fwd : BOOLEAN]
+OptRec(n)   == [win : BOOLEAN, lose : BOOLEAN, xf : 0..n, fwd : BOOLEAN, ford : 0..2, xabs : BOOLEAN]
 
 AbsRow(s) == <<Tr("", 1, s)>>
 
 \* the game denoted by per-state records rc and options op
 MkGame(n, rc, op) ==
     LET isWin(s)  == op.win /\ s = n
-        isLose(s) == op.lose /\ s = n - 1 /\ n >= 3
+        isLose(s) == (op.lose /\ s = n - 1 /\ n >= 3)
+                     \/ (op.xabs /\ s = op.xf /\ s >= 2)      \* an extra, absorbing final state
         tgt(s, j) == IF op.fwd /\ rc[s].o # PR /\ s < n
                      THEN s + 1 + (rc[s].t[j] % (n - s))
                      ELSE rc[s].t[j]
@@ -32,8 +33,13 @@ MkGame(n, rc, op) ==
                   ELSE [j \in 1..rc[s].k |->
                           IF rc[s].o = PR THEN Tr("", rc[s].w[j], tgt(s, j))
                           ELSE Tr(Lab[j], 0, tgt(s, j))]
+        \* final states in any order, possibly listed twice
         fin == IF op.win
-               THEN (IF op.xf \in 1..(n - 1) /\ ~isLose(op.xf) THEN <<n, op.xf>> ELSE <<n>>)
+               THEN (IF op.xf \in 1..(n - 1) /\ ~(op.lose /\ op.xf = n - 1 /\ n >= 3)
+                     THEN (CASE op.ford = 0 -> <<n, op.xf>>
+                             [] op.ford = 1 -> <<op.xf, n>>
+                             [] op.ford = 2 -> <<op.xf, n, op.xf>>)
+                     ELSE <<n>>)
                ELSE <<IF op.xf = 0 THEN n ELSE op.xf>>
     IN  [n |-> n,
          owner  |-> [s \in 1..n |-> IF isWin(s) \/ isLose(s) THEN PR ELSE rc[s].o],
@@ -51,7 +57,8 @@ RandGame(n) ==
 
 StopGame(n) ==
     MkGame(n, TLCEval([s \in 1..n |-> RandomElement(StateRec(n))]),
-           [win |-> TRUE, lose |-> TRUE, xf |-> 0, fwd |-> RandomElement({TRUE, TRUE, FALSE})])
+           [win |-> TRUE, lose |-> TRUE, xf |-> RandomElement({0, 0, 2, n - 2}), xabs |-> TRUE,
+            fwd |-> RandomElement({TRUE, TRUE, FALSE}), ford |-> RandomElement(0..2)])
 
 SizeOf(i) == 3 + (i % 4)      \* n = 3..6
 
@@ -123,6 +130,29 @@ PermFamily ==
                     IN  TLCEval([fam |-> "perm", g |-> g, stopping |-> IsStopping(g),
                                  acyclic |-> AcyclicOn(g, States(g)),
                                  rel |-> rel, h |-> TransformGame(g, rel)])]
+
+-----------------------------------------------------------------------------
+(* Tiny: a state whose value is positive but far below the solver's        *)
+(* threshold (1/W), next to dead states: it must be treated as live.       *)
+(*   1 chooser, 2 tiny (PR: 1 -> win, W-1 -> lose), 3 dead (-> lose),      *)
+(*   4 mix (PR -> tiny / dead / win), 5 lose, 6 win                        *)
+TinyGames ==
+    LET mk(o, W, r1, mixrow, acts) ==
+          [n |-> 6,
+           owner  |-> <<o, PR, PR, PR, PR, PR>>,
+           reward |-> <<r1, 1, 2, 1, 0, 0>>,
+           tr |-> << IF o = PR THEN [j \in DOMAIN acts |-> Tr("", 1, acts[j])]
+                     ELSE [j \in DOMAIN acts |-> Tr(Lab[j], 0, acts[j])],
+                     <<Tr("", 1, 6), Tr("", W - 1, 5)>>,
+                     <<Tr("", 1, 5)>>,
+                     mixrow,
+                     <<Tr("", 1, 5)>>, <<Tr("", 1, 6)>> >>,
+           final |-> <<6>>]
+    IN  { mk(o, W, r1, mixrow, acts) :
+            o \in {P1, P2, PR}, W \in {1000000, 3000000, 4000000}, r1 \in {0, 1},
+            mixrow \in { <<Tr("", 1, 2), Tr("", 1, 3)>>, <<Tr("", 1, 3), Tr("", 2, 2), Tr("", 1, 3)>>,
+                         <<Tr("", 1, 2), Tr("", 1, 6)>> },
+            acts \in { <<2, 3>>, <<3, 2>>, <<4, 3>>, <<2, 4>>, <<3, 4, 2>>, <<2>> } }
 
 -----------------------------------------------------------------------------
 (* Ties: the initial state chooses between X and Y whose values are equal   *)
